@@ -90,7 +90,7 @@ def _build():
             a, b = _split(x, [n, n])
             return T.ite(T.eq(b, T.const(n, 0)), a, T.urem(a, b))
 
-        def div_mod(x, n=n):
+        def div_mod(x, n=n, div_=div_, mod_=mod_):
             return T.cat([div_(x), mod_(x)])
 
         def divides(x, n=n):
@@ -219,6 +219,18 @@ def _build():
 
 
 _build()
+
+
+def model_for(name, interpret):
+    """interpret: True (every modelled jet), False (none), or a collection of jet names to keep
+    uninterpreted while all other modelled jets are interpreted"""
+    if interpret is True:
+        return MODELS.get(name)
+    if interpret is False or interpret is None:
+        return None
+    if name in interpret:
+        return None
+    return MODELS.get(name)
 
 # jets that return without failing on every input even though we keep them uninterpreted
 # (hashes, environment reads that cannot fail); everything else gets an uninterpreted
